@@ -10,7 +10,7 @@ from pbt import core, formats, strategies as S
 from pbt.core import Failure
 
 ID = "C03"
-RULE = ("Tables of 0..N rows built from generated Python values for Interval, Bed6, Bed12, BedGraph, NarrowPeak, ChromosomeSize, SequenceEntry "
+RULE = ("Tables of 0..N rows built from generated Python values for Interval, Bed6, Bed12, BedGraph, NarrowPeak, ChromosomeSize, VCF with a genotype matrix (codes computed from the genotype texts), SequenceEntry "
         "(wrapped FASTA with sequence lengths around multiples of 80, and two-line FASTA), SequenceEntryWithQuality, SAMEntry, GTFEntry, "
         "PairsEntry and VCFWithInfoAsStringEntry; integers over the int64 range with emphasis near powers of ten, finite floats, identifier "
         "character set, empty optional fields. A writing plan splits the rows into pieces (zero-length pieces included) and writes them as "
@@ -28,7 +28,7 @@ ASSUMPTIONS = [
 REQUIRED_CLASSES = ["seq-len-79-81", "seq-len-159-161", "negative-int", "one-char-field", "append", "gzip", "stream", "empty-piece-between",
                     "empty-piece-first", "int-near-power-of-ten", "empty-table", "pieces-from-reread", "pieces-from-reread-thinned", "concat-of-reread-pieces",
                     "pieces-sliced-from-the-table-already-written", "sequence-column-in-dna-encoding", "table-written-is-a-row-selection"]
-BOUNDS = {"quick": "150 (table, plan) pairs for each of 13 table types, up to 8 rows", "thorough": "3000 per type, up to 40 rows"}
+BOUNDS = {"quick": "150 (table, plan) pairs for each of 15 table types, up to 8 rows", "thorough": "3000 per type, up to 40 rows"}
 BUDGET_S = {"quick": 200, "thorough": 1500}
 
 # type tag -> (dataclass path, buffer path, suffix, [(field, kind), ...])
@@ -69,10 +69,22 @@ TYPES = {
     "vcfentry": ("bionumpy.datatypes.VCFEntry", "bionumpy.io.vcf_buffers.VCFBuffer", ".vcf",
                  [("chromosome", "id"), ("position", "pos"), ("id", "str"), ("ref_seq", "str"), ("alt_seq", "str"), ("quality", "str"),
                   ("filter", "str"), ("info", "str")]),
+    # a VCF whose sample columns are held as a genotype matrix (one code per sample; FORMAT is always GT)
+    "vcfmatrix": ("bionumpy.datatypes.VCFGenotypeEntry", "bionumpy.io.vcf_buffers.VCFMatrixBuffer", ".vcf",
+                  [("chromosome", "id"), ("position", "pos"), ("id", "str"), ("ref_seq", "str"), ("alt_seq", "str"), ("quality", "str"),
+                   ("filter", "str"), ("info", "str"), ("genotypes", "geno")]),
 }
 COMMENT = {"sam": "@"}
+GENO_LETTERS = "012.|/"
+
+
+def genotype_code(g):
+    """The matrix code of one genotype text such as '0|1' or './.': base-6 number of its three characters, held in a signed byte."""
+    v = 36 * GENO_LETTERS.index(g[0]) + 6 * GENO_LETTERS.index(g[1]) + GENO_LETTERS.index(g[2])
+    return v - 256 if v > 127 else v
+
 # re-read sources are used for the formats whose lazily read selections can be written back (C04 covers that write path in depth)
-NO_REREAD = ("bed12", "chromsizes", "gtf", "pairs", "fasta", "vcfentry")
+NO_REREAD = ("bed12", "chromsizes", "gtf", "pairs", "fasta", "vcfentry", "vcfmatrix")
 
 
 def _load(path):
@@ -101,6 +113,12 @@ def build_table(tname, rows, dna=False):
             cols.append(bnp.as_encoded_array(vals, QualityEncoding) if vals else bnp.as_encoded_array([], QualityEncoding))
         elif kind == "strand":
             cols.append(bnp.as_encoded_array("".join(vals), StrandEncoding))
+        elif kind == "geno":
+            from bionumpy.encoded_array import EncodedArray
+            from bionumpy.encodings.vcf_encoding import GenotypeRowEncoding
+            n_samples = len(vals[0]) if vals else 0
+            codes = np.array([[genotype_code(g) for g in v] for v in vals], dtype=np.int8).reshape(len(vals), n_samples)
+            cols.append(EncodedArray(codes, GenotypeRowEncoding))
         elif kind in ("seq", "seq1") and dna and vals:
             cols.append(bnp.as_encoded_array(list(vals), bnp.DNAEncoding))      # the sequences held in the two-bit alphabet instead of as text
         else:
@@ -117,6 +135,8 @@ def canon(kind, v):
         return repr(float(v))
     if kind == "ilist":
         return ",".join(str(int(x)) for x in v)
+    if kind == "geno":
+        return "GT\t" + "\t".join(v)
     return v
 
 
@@ -149,6 +169,8 @@ def expected_read_rows(tname, rows):
                 row.append([ord(c) - 33 for c in v])
             elif k == "ilist":
                 row.append([int(x) for x in v])
+            elif k == "geno":
+                row.append(list(v))
             elif k == "float":
                 row.append(float(v))
             elif k in ("int", "uint", "pos"):
@@ -402,9 +424,14 @@ def value_strategy(kind):
 def c03_case(draw, tname, max_rows):
     kinds = TYPES[tname][3]
     n = draw(st.one_of(st.integers(0, max_rows), st.integers(2, max_rows), st.integers(2, max_rows), st.sampled_from([0, 1])))
+    if tname == "vcfmatrix":
+        n = max(n, 1)        # (a table without rows has no sample columns to speak of)
+    n_samples = draw(st.integers(1, 4))
     rows = []
     for _ in range(n):
-        row = [draw(value_strategy(k)) for _, k in kinds]
+        row = [draw(value_strategy(k)) if k != "geno" else
+               [draw(st.builds(lambda a, s_, b: a + s_ + b, st.sampled_from("012."), st.sampled_from("|/"), st.sampled_from("012."))) for _ in range(n_samples)]
+               for _, k in kinds]
         if tname == "fastq":
             row[2] = draw(st.text(alphabet=S.QUAL_CHARS, min_size=len(row[1]), max_size=len(row[1])))
         rows.append(row)
